@@ -21,6 +21,17 @@ class JsonSchemaParser:
     default_type = Any
 
     NON_NAME_REG = '[^A-Za-z0-9]+'
+    # the instance types each type-specific keyword applies to
+    KEYWORD_TYPES = {
+        **{k: ('integer', 'number') for k in (
+            'minimum', 'maximum', 'exclusiveMinimum', 'exclusiveMaximum', 'multipleOf')},
+        **{k: ('string',) for k in ('minLength', 'maxLength', 'pattern', 'format')},
+        **{k: ('array',) for k in (
+            'items', 'prefixItems', 'minItems', 'maxItems', 'uniqueItems', 'contains', 'minContains', 'maxContains')},
+        **{k: ('object',) for k in (
+            'properties', 'required', 'additionalProperties', 'minProperties', 'maxProperties',
+            'dependentRequired', 'propertyNames', 'patternProperties')},
+    }
 
     def __init__(self, json_schema: dict,
                  refs: Dict[str, dict] = None,
@@ -154,6 +165,15 @@ class JsonSchemaParser:
             constraints = self.get_constraints(schema)
 
         t = self.default_type
+        if isinstance(type, (list, tuple)):
+            # "type": ["integer", "null"] : any of the listed types, each with the keywords of this schema
+            # that apply to it (a numeric bound says nothing about null or a string)
+            return LogicalType.any_of(*[
+                self.parse_type(
+                    dict({k: v for k, v in schema.items() if tp in self.KEYWORD_TYPES.get(k, (tp,))}, type=tp),
+                    with_constraints=with_constraints
+                ) for tp in type
+            ])
         if type:
             if type == 'array':
                 return self.parse_array(
